@@ -59,16 +59,45 @@ class InfraError(Exception):
     pass
 
 
+_lock_depth = 0
+
+
 @contextlib.contextmanager
 def lean_lock():
+    """exclusive lock on the Lean project (re-entrant within this process)"""
+    global _lock_depth
+    if _lock_depth > 0:
+        _lock_depth += 1
+        try:
+            yield
+        finally:
+            _lock_depth -= 1
+        return
     os.makedirs(os.path.join(LEAN, ".lake"), exist_ok=True)
     f = open(os.path.join(LEAN, ".lake", "verif.lock"), "w")
     try:
         fcntl.flock(f, fcntl.LOCK_EX)
+        _lock_depth = 1
         yield
     finally:
+        _lock_depth = 0
         fcntl.flock(f, fcntl.LOCK_UN)
         f.close()
+
+
+def trim_go_cache(min_free_gb=40, idle_minutes=60):
+    """every scratch module makes new entries in the shared Go build cache; when the disk runs low, drop the entries no
+    build has used for a while (Go refreshes the mtime of an entry on use and rebuilds what is missing)"""
+    try:
+        cache = subprocess.run(["go", "env", "GOCACHE"], stdout=subprocess.PIPE, text=True, env=goenv()).stdout.strip()
+        if not cache or not os.path.isdir(cache):
+            return
+        if shutil.disk_usage(cache).free > min_free_gb * (1 << 30):
+            return
+        subprocess.run(["find", cache, "-type", "f", "-mmin", "+%d" % idle_minutes, "-delete"],
+                       stdout=subprocess.DEVNULL, stderr=subprocess.DEVNULL)
+    except Exception:
+        pass
 
 
 class Ctx:
@@ -77,6 +106,7 @@ class Ctx:
         self.tier = tier
         self.seed = seed
         self.rng = random.Random(seed * 1000003 + sum(ord(c) for c in prop))
+        trim_go_cache()
         self.scratch = tempfile.mkdtemp(prefix="shootverif-%s-" % prop)
         self.t0 = time.time()
         self._shoot = None
@@ -185,6 +215,13 @@ def lean_build(targets, timeout=3600):
 def lean_obligations(ctx, modules, facts=True, leanchecker=False, driver="shootmodel_rt"):
     """Build the property's theorem modules against freshly regenerated facts and audit them.
     returns dict(obligations=[...], discharged=[...], failed={name: why}, log=str, checker_cmd=str)"""
+    # one critical section: facts regeneration, build and audit must see the SAME Gen/Facts.lean (a concurrent check run
+    # against a scratch worktree, VERIF_REPO, writes that worktree's tables into the shared project)
+    with lean_lock():
+        return _lean_obligations(ctx, modules, facts, leanchecker, driver)
+
+
+def _lean_obligations(ctx, modules, facts, leanchecker, driver):
     from . import facts as factsmod
     res = {"obligations": [], "discharged": [], "failed": {}, "log": "", "modules": modules}
     if facts:
